@@ -71,7 +71,7 @@ func (w *writer) NeedsRollover(rollover int64) bool {
 	// Rollover is intentionally based on data-file size only, not including the
 	// index. The index grows proportionally; callers set the threshold based on
 	// message-data volume, not total on-disk cost.
-	return w.messages.Size() > rollover
+	return w.index.Len() > 0 && w.messages.Size() > rollover
 }
 
 func (w *writer) Publish(msgs []message.Message) (int64, error) {
